@@ -19,6 +19,10 @@ Theorem C10_optional_hint : forall t o, from_hint (HUnion [t]) o = from_hint t t
 Proof. exact optional_is_union_with_none. Qed.
 Theorem C10_general_union : forall alts o, length alts <> 1 -> from_hint (HUnion alts) o = Err TypeErr.
 Proof. exact general_union_refused. Qed.
+(* `Optional[tuple[...]]`: the flag stops at the tuple - its elements are resolved with their own hints, so a present tuple
+   is checked exactly as under `tuple[...]` (an element is optional only if its own hint says so) *)
+Theorem C10_optional_tuple_is_the_tuple : forall es o, from_hint (HUnion [HTuple es]) o = from_hint (HTuple es) false.
+Proof. intros es o. rewrite optional_is_union_with_none. reflexivity. Qed.
 (* a union refused by from_hint is refused when the function is decorated (whatever the other hints are, as long
    as resolving them raises nothing but TypeError - from_hint raises nothing else) *)
 Lemma hints_of_union ps : forall n alts, In (n, HUnion alts) ps -> length alts <> 1 ->
@@ -57,6 +61,10 @@ Example ex10_optional_hint : from_hint (HUnion [HAnn BSupported (annA "a" false)
 Proof. reflexivity. Qed.
 Example ex10_two_tensor_union_refused :
   decorate true {| f_params := [("x", HUnion [HAnn BSupported (annA "a" false); HAnn BSupported (annA "b" false)])]; f_ret := None; f_provider := PNone; f_is_method := false |} = DecError TypeErr.
+Proof. reflexivity. Qed.
+Example ex10_optional_tuple_elements_stay_required :
+  from_hint (HUnion [HTuple [HAnn BSupported (annA "a" false); HUnion [HAnn BSupported (annA "b" false)]]]) false
+  = Ok (true, [Some (annA "a" false); Some (annA "b" true)]).
 Proof. reflexivity. Qed.
 Redirect "C10.assumptions.1" Print Assumptions C10_none_skipped.
 Redirect "C10.assumptions.2" Print Assumptions C10_union_refused_at_decoration.
